@@ -14,7 +14,9 @@ def record(rep, tag, rule, site, r, what):
         rep.incomplete(tag, rule, site, '%s: no abstract cell was produced' % what)
         return False
     if r.failures:
-        f = r.failures[0]
+        # a cell with a concrete witness decides; cells that are merely not discharged (possibly empty) do not
+        withw = [f_ for f_ in r.failures if f_.get('witness') is not None]
+        f = withw[0] if withw else r.failures[0]
         if f['witness'] is not None or ('differs' not in f['detail'] and f.get('kind') != 'range'):
             wtxt = ''
             if f['witness']:
@@ -29,7 +31,7 @@ def record(rep, tag, rule, site, r, what):
                 # symbols introduced by a summary (v<n>: the value a proved callee returns) are not inputs
                 import re as _re
                 wtxt = ' witness: ' + ', '.join(['%s=0x%016x' % (n, (d.get('h', 0) << 32) + d.get('l', 0)) for n, d in sorted(vals.items())
-                                                 if not _re.match(r'^v\d+$', n)] + ['%s=0x%x' % kv for kv in sorted(single.items())])
+                                                 if not _re.match(r'^[fv]\d+$', n)] + ['%s=0x%x' % kv for kv in sorted(single.items())])
             rep.refute(tag, rule, site, '%s: %s%s (%d of %d cells fail)' % (what, f['detail'][:300], wtxt, len(r.failures), r.cells),
                        witness=f['witness'])
         else:
